@@ -172,14 +172,17 @@ type Violation struct {
 type World struct {
 	Cfg       Config
 	SubSecond bool // block times carry a sub-second part (see SubSecondJobs)
-	App       *app.ElysApp
-	DB        dbm.DB
-	Home      string
-	Users     []*Actor
-	Feeder    *Actor
-	Feeders   []*Actor
-	Voter     *Actor
-	All       []*Actor
+	// GovTraffic, when set (by the workload generator), supplies the user transactions of the block
+	// in which a governance proposal executes
+	GovTraffic func() []*TxRecord
+	App        *app.ElysApp
+	DB         dbm.DB
+	Home       string
+	Users      []*Actor
+	Feeder     *Actor
+	Feeders    []*Actor
+	Voter      *Actor
+	All        []*Actor
 	// PhaseEvents: events emitted so far in the running begin- / end-block, refreshed before every
 	// module-probe call
 	PhaseEvents []abci.Event
